@@ -104,6 +104,11 @@ structure Group where
   groupHeight : Nat
   deriving Repr, DecidableEq, Inhabited
 
+structure Member where
+  id : Option Bytes
+  pubKey : Option Bytes
+  deriving Repr, DecidableEq, Inhabited
+
 /-- `common.BytesToHash`: crop from the left, left-pad with zeros, always 32 bytes. -/
 def bytesToHash (b : Bytes) : Bytes :=
   if b.length > 32 then b.drop (b.length - 32) else List.replicate (32 - b.length) 0 ++ b
@@ -149,10 +154,18 @@ def groupToPb (g : Group) : PbGroup :=
 
 /-! ### protobuf struct → value -/
 
+/-- `json.Unmarshal(raw, &subTransactions)` (error ignored) seen through `json.Marshal`: absent, empty
+    and `null` give a nil slice; bytes in the modelled `[]UserData` class are decoded and re-rendered
+    (sorted maps, omitted empty fields, strings coerced to valid UTF-8); other bytes are left as they
+    are (the driver answers `unmodelled` for them). -/
 def normSubTx (o : Option Bytes) : Bytes :=
   match o with
   | none => jsonNull
-  | some raw => if raw = [] then jsonNull else raw
+  | some raw =>
+    if raw = [] then jsonNull
+    else match parseSubTx raw with
+      | some l => encSubTx l
+      | none => raw
 
 def pbToTx (p : PbTx) : Outcome Tx :=
   match derefStr 1 1 p.data with
@@ -320,6 +333,35 @@ def unmarshalGroup (bs : Bytes) : Outcome Group :=
   match decGroup bs with
   | none => .err
   | some p => pbToGroup p
+
+/-- `PbToGroups`: element-wise `PbToGroup`. -/
+def pbToGroups : List PbGroup → Outcome (List Group)
+  | [] => .ok []
+  | p :: ps =>
+    match pbToGroup p with
+    | .ok g =>
+      (match pbToGroups ps with
+       | .ok gs => .ok (g :: gs)
+       | .err => .err | .nilObj => .nilObj | .panic s => .panic s)
+    | .err => .err | .nilObj => .nilObj | .panic s => .panic s
+
+/-- `proto.Unmarshal` into a `GroupSlice`, then `PbToGroups`. -/
+def unmarshalGroups (bs : Bytes) : Outcome (List Group) :=
+  match decGroupSlice bs with
+  | none => .err
+  | some ps => pbToGroups ps
+
+def memberToPb (m : Member) : PbMember := ⟨m.id, m.pubKey⟩
+def pbToMember (p : PbMember) : Member := ⟨p.id, p.pubKey⟩
+
+/-- `MarshalMember`: both fields are `required`; proto.Marshal reports a nil one as an error. -/
+def marshalMember (m : Member) : Outcome Bytes :=
+  if m.id.isNone || m.pubKey.isNone then .err else .ok (encMember (memberToPb m))
+
+def unmarshalMember (bs : Bytes) : Outcome Member :=
+  match decMember bs with
+  | none => .err
+  | some p => .ok (pbToMember p)
 
 /-! ### identifying hashes -/
 
